@@ -122,7 +122,10 @@ def run_engine(chk, pid, tier, shards, parallel=16):
 
     def one(ix):
         i, sp = ix
-        r = run_case('checks.c07:shard', sp, os.path.join(wd, 's%d' % i), timeout=sp.get('budget_s', 120) + 60)
+        r = run_case('checks.c07:shard', sp, os.path.join(wd, 's%d' % i), timeout=sp.get('budget_s', 120) + 240)
+        if r['result'] is None and r['timed_out']:
+            # the wall-clock watchdog fired (loaded machine): one more attempt before the shard counts as inconclusive
+            r = run_case('checks.c07:shard', sp, os.path.join(wd, 's%d_again' % i), timeout=sp.get('budget_s', 120) + 480)
         return sp, r
 
     results = pmap(one, list(enumerate(shards)), parallel)
